@@ -295,7 +295,7 @@ func verifFsArm(w http.ResponseWriter, r *http.Request) {
 
 func verifFsArmPattern(w http.ResponseWriter, r *http.Request) {
 	n, _ := strconv.ParseInt(r.URL.Query().Get("n"), 10, 64)
-	fileops.VerifArmPattern(r.URL.Query().Get("kind"), r.URL.Query().Get("path"), n)
+	fileops.VerifArmPattern(r.URL.Query().Get("kind"), r.URL.Query().Get("path"), r.URL.Query().Get("not"), n)
 	verifReply(w, map[string]any{"armed_pattern": n, "count": fileops.VerifCount()})
 }
 
